@@ -190,6 +190,21 @@ CHECKS["C14"] = dict(
           "and live (C14_OutputValidated)."),
     technique="TLA+ Auth.tla evaluated by TLC on the exhaustive role matrix and on recorded probes / deliveries of the real handler on both backends")
 
+CHECKS["C16"] = dict(
+    cat="model_checking", ref="DESIGN.md §5 C16",
+    note=("Trusted: TLC; the clock is injected (nostr_relay.validators.time); proof-of-work ids are really ground (4-bit "
+          "requirement, 3/4/5 bits exactly; the extremes 0 and 256 bits are not constructible and not exercised); NIP-05 "
+          "verification (nostr_bot) cannot be imported here. The refresh race is decided on the transcription by TLC over all "
+          "interleavings, and on the real code by observing every intermediate state of the shared set (each set operation is "
+          "atomic under the GIL) rather than by running racing threads."),
+    text=("Validators.tla gives each validator its documented bound and the pipeline first-failing semantics; TLC judges every "
+          "submission of 80 attribute vectors at / inside / outside every bound through add_event on both backends under "
+          "single, full and seeded pipelines: decision, reason and that a refusal leaves no trace. DynLists.tla transcribes the "
+          "refresher's set mutations; TLC checks C16_NoEmptyWindow / C16_ListExact over all interleavings with readers "
+          "(MC_DynLists; the as-found clear/update sequence gave the counterexample behind the repair) and validates the "
+          "real ListBuilder.run_once, every mutation observed with is_pubkey_allowed asked about every key, against it."),
+    technique="TLA+ Validators.tla / DynLists.tla; bound-class events and observed refresh mutations of the real code validated by TLC; DynLists model-checked over all interleavings")
+
 NOT_YET = {}
 
 
